@@ -31,8 +31,8 @@ theorem entity_workerTeardown (v : Variant) (tdFail : Name → Bool) (w : Nat) (
     ∀ x ∈ workerTeardown v tdFail w l, x.entity = some w := by
   unfold workerTeardown
   split
-  · exact entity_teardownRun tdFail _ l
   · exact entity_teardownAbort tdFail _ _
+  · exact entity_teardownRun tdFail _ l
 
 theorem logOf_all {e : Option Nat} {l : List TdEv} (h : ∀ x ∈ l, x.entity = e) : logOf e l = l := by
   simp only [logOf]
@@ -50,7 +50,7 @@ structure TdP (inp : RunInput) (tdFail : Name → Bool) (v : Variant) (ts : TSys
   logM : logOf none ts.log = []
   ns : ∀ w, ts.base.workers w = .notStarted → ts.wtd w = []
   crash : ts.crashed = true ↔
-    (v.procFixed = false ∧ ∃ w, ts.base.workers w = .exited ∧ (ts.wtd w).any tdFail = true)
+    (v.pinnedProcess = true ∧ ∃ w, ts.base.workers w = .exited ∧ (ts.wtd w).any tdFail = true)
 
 theorem init_tdP (inp : RunInput) (tdFail : Name → Bool) (v : Variant) : TdP inp tdFail v (tinit inp) := by
   refine ⟨init_tdB inp, fun _ => rfl, fun w => ?_, rfl, fun _ _ => rfl, ?_⟩
@@ -176,7 +176,7 @@ theorem tstep_tdP {inp : RunInput} {tdFail : Name → Bool} {v : Variant} {ts ts
               by_cases e : k = w
               · subst e; rw [if_pos rfl] at x'; cases x'
               · rw [if_neg e] at x'; exact h.ns k x'
-            · show (ts.crashed || (!v.procFixed && (ts.wtd w).any tdFail)) = true ↔ _
+            · show (ts.crashed || (v.pinnedProcess && (ts.wtd w).any tdFail)) = true ↔ _
               rw [Bool.or_eq_true, h.crash]
               constructor
               · rintro (⟨a, k, b, c⟩ | a)
@@ -184,7 +184,7 @@ theorem tstep_tdP {inp : RunInput} {tdFail : Name → Bool} {v : Variant} {ts ts
                   by_cases e : k = w
                   · subst e; exact exw
                   · exact (exq k e).mpr b
-                · simp only [Bool.and_eq_true, Bool.not_eq_true'] at a
+                · simp only [Bool.and_eq_true] at a
                   exact ⟨a.1, w, exw, a.2⟩
               · rintro ⟨a, k, b, c⟩
                 by_cases e : k = w
